@@ -40,6 +40,10 @@ class Horizon(BaseException):
     """The execution exceeded its explicit horizon (BaseException: run() has `except Exception`)."""
 
 
+class Truncate(BaseException):
+    """The explorer cut this execution at a state whose futures are already explored."""
+
+
 class Deadlock(BaseException):
     """A lock was acquired while held in a single-threaded execution."""
 
@@ -904,7 +908,7 @@ class Script(object):
 
 class Run(object):
     """Result of driving one connection iterator to its end."""
-    __slots__ = ('world', 'ws', 'finished', 'horizon', 'escaped', 'overflow', 'after_stop', 'deadlock', 'abandoned')
+    __slots__ = ('world', 'ws', 'finished', 'horizon', 'escaped', 'overflow', 'after_stop', 'deadlock', 'abandoned', 'truncated')
 
     def __init__(self, world, ws):
         self.world, self.ws = world, ws
@@ -915,6 +919,7 @@ class Run(object):
         self.after_stop = None
         self.deadlock = False
         self.abandoned = None
+        self.truncated = False
 
     @property
     def events(self):
@@ -943,6 +948,8 @@ def drive(world, ws, gen, app=None, max_events=400):
                 app(world, ws, e)
     except Horizon:
         run.horizon = True
+    except Truncate:
+        run.truncated = True
     except Deadlock as error:
         run.deadlock = True
         run.escaped = error
@@ -985,7 +992,7 @@ def safe_call(world, label, fn, *a, **k):
         r = fn(*a, **k)
         world.app_log.append((label, 'ok', None, before, len(world.writes), len(world.events)))
         return r
-    except (Horizon, Deadlock, HarnessError):
+    except (Horizon, Deadlock, HarnessError, Truncate):
         raise
     except BaseException as error:  # noqa
         world.app_log.append((label, 'raised', error, before, len(world.writes), len(world.events)))
